@@ -523,6 +523,12 @@ class Exec:
                         self.env[nm] = var(nm + "_in", ty)
                 self.walk(s.body, path + ["for:" + idx + " in " + ast.unparse(s.iter)])
                 final = {nm: self.env.get(nm) for nm in state}
+                # a `continue` / `break` / `return` anywhere in the body makes some iterations skip (part of) the update: the
+                # straight-line reading of the body is then not what the loop computes
+                jumps = [type(sub).__name__.lower() for sub in ast.walk(s) if isinstance(sub, (ast.Continue, ast.Break, ast.Return))]
+                if jumps:
+                    final = {nm: Opaque("the loop over %s contains `%s`: its body is not executed as a whole on every iteration" % (idx, jumps[0]))
+                             for nm in state}
                 self.loops.append(dict(index=idx, iter=ast.unparse(s.iter), state=state, final=final, path=tuple(path)))
                 self.env = dict(before)
                 for nm in assigned:
